@@ -18,6 +18,11 @@ OPS = 'tracklib.core.operators'
 NAMES = ['a', 'b', 'c']
 
 
+UVOID = {'D': 'DIFFERENTIATOR', 'I': 'INTEGRATOR', 'NEG': 'INVERTER'}
+SVOID = {'SMUL': 'SCALAR_MULTIPLIER', 'SADD': 'SCALAR_ADDER', 'SSUB': 'SCALAR_SUBSTRACTER', 'SRSUB': 'SCALAR_REV_SUBSTRACTER'}
+BVOID = {'ADD': 'ADDER', 'SUB': 'SUBSTRACTER', 'MUL': 'MULTIPLIER'}
+
+
 def tables():
     out = [()]
     for k in (1, 2, 3):
@@ -41,12 +46,15 @@ def ops_for(table):
             ops.append(['setobs', nm])
     for s in have:
         for d in NAMES:
-            ops.append(['uvoid', s, d])              # DIFFERENTIATOR s -> d (d may exist, may be s)
-            ops.append(['svoid', s, d])              # SCALAR_MULTIPLIER s * k -> d
+            for which in UVOID:
+                ops.append(['uvoid', s, d, which])   # unary void operator s -> d (d may exist, may be s)
+            for which in SVOID:
+                ops.append(['svoid', s, d, which])   # scalar void operator (s, k) -> d
         ops.append(['unary', s])                     # SUM (non-void: the track must not change)
         for s2 in have:
             for d in NAMES:
-                ops.append(['bvoid', s, s2, d])      # ADDER
+                for which in BVOID:
+                    ops.append(['bvoid', s, s2, d, which])
     # algebraic expressions
     for d in NAMES + ['x', 'y', 'z']:
         for s in have:
@@ -130,15 +138,29 @@ def apply_model(m, op, fresh, A):
         return None
     if kind == 'uvoid':
         v = m.get(op[1])
-        m.put(op[2], [NAN] + [nsub(v[i], v[i - 1]) for i in range(1, n)])
+        which = op[3] if len(op) > 3 else 'D'
+        if which == 'D':
+            r = [NAN] + [nsub(v[i], v[i - 1]) for i in range(1, n)]
+        elif which == 'I':
+            r = [A.const(0.0)]
+            for i in range(1, n):
+                r.append(nadd(r[-1], v[i]))
+        else:
+            r = [nsub(A.const(0.0), x) for x in v]
+        m.put(op[2], r)
         return None
     if kind == 'svoid':
         v = m.get(op[1])
-        m.put(op[2], [nmul(x, A.lift(fresh['k'])) for x in v])
+        k = A.lift(fresh['k'])
+        which = op[3] if len(op) > 3 else 'SMUL'
+        f = {'SMUL': lambda x: nmul(x, k), 'SADD': lambda x: nadd(x, k), 'SSUB': lambda x: nsub(x, k), 'SRSUB': lambda x: nsub(k, x)}[which]
+        m.put(op[2], [f(x) for x in v])
         return None
     if kind == 'bvoid':
         v1, v2 = m.get(op[1]), m.get(op[2])
-        m.put(op[3], [nadd(p, q) for p, q in zip(v1, v2)])
+        which = op[4] if len(op) > 4 else 'ADD'
+        f = {'ADD': nadd, 'SUB': nsub, 'MUL': nmul}[which]
+        m.put(op[3], [f(p, q) for p, q in zip(v1, v2)])
         return None
     if kind == 'unary':
         v = m.get(op[1])
@@ -206,11 +228,11 @@ def apply_real(tr, op, fresh):
     elif kind == 'setobs':
         tr[op[1], fresh['i']] = fresh['scalar']
     elif kind == 'uvoid':
-        return tr.operate(Operator.DIFFERENTIATOR, op[1], op[2])
+        return tr.operate(getattr(Operator, UVOID[op[3] if len(op) > 3 else 'D']), op[1], op[2])
     elif kind == 'svoid':
-        return tr.operate(Operator.SCALAR_MULTIPLIER, op[1], fresh['k'], op[2])
+        return tr.operate(getattr(Operator, SVOID[op[3] if len(op) > 3 else 'SMUL']), op[1], fresh['k'], op[2])
     elif kind == 'bvoid':
-        return tr.operate(Operator.ADDER, op[1], op[2], op[3])
+        return tr.operate(getattr(Operator, BVOID[op[4] if len(op) > 4 else 'ADD']), op[1], op[2], op[3])
     elif kind == 'unary':
         return tr.operate(Operator.SUM, op[1])
     elif kind == 'expr':
@@ -222,7 +244,7 @@ class C01(Check):
     id = 'C01'
     title = 'Feature table stays aligned with observations under any operation history'
     functions = ['Track.createAnalyticalFeature', 'Track.updateAnalyticalFeature', 'Track.removeAnalyticalFeature', 'Track.__setitem__', 'Track.setObsAnalyticalFeature',
-                 'Track.operate (operator objects and expressions)', 'Track.__applyOperation', 'utils.addListToAF', 'operators.Differentiator/ScalarMuliplier/Adder/Sum']
+                 'Track.operate (operator objects and expressions)', 'Track.__applyOperation', 'utils.addListToAF', 'operators.Differentiator/Integrator/Inverter, ScalarMuliplier/ScalarAdder/ScalarSubstracter/ScalarRevSubstracter, Adder/Substracter/Multiplier, Sum']
     stubs = ['track.float/int, utils.float, operators.float rebound to lifted classes', 'proxies hash by identity inside the evaluator']
     assumptions = ['representation invariant (inductive hypothesis): listed names map one-to-one onto columns 0..k-1, every observation has k slots, no listed name starts with #',
                    'pre-states are built through createAnalyticalFeature in the order of an arbitrary ordered selection of names from {a, b, c}; '
